@@ -143,7 +143,7 @@ def c02_finding_key(case):
 CHECKS["C02"] = dict(
     stages=[dict(sub="c02", quick=64, thorough=3000, shrink=["rounds"], parallel=16, shards=16),
             dict(sub="c02", mode="db", quick=32, thorough=1000, shrink=["rounds"], parallel=16, shards=16, seed_salt=55),
-            dict(sub="c02", mode="enum", quick=1, thorough=96, shrink=[], parallel=16, shards=16, shard_min=2, seed_salt=91)],
+            dict(sub="c02", mode="enum", quick=1, thorough=32, shrink=[], parallel=16, shards=16, shard_min=2, seed_salt=91)],
     finding_key=c02_finding_key,
     assumptions=["a kill preserves the file system (process kill, not power loss): every rename/remove is atomic and durable once it returned; temp files live outside the table directory",
                  "the WAL (getlantern/wal) is external: opened with sync on every write; assumed to return acknowledged entries in order with stable offsets and to drop a torn tail",
